@@ -118,7 +118,7 @@ func (v Value) call(rt *runtime, this Value, argumentList ...interface{}) Value 
 	if function, ok := v.value.(*object); ok {
 		return function.call(this, function.runtime.toValueArray(argumentList...), false, nativeFrame)
 	}
-	panic(rt.panicTypeError("call %q is not an object", v.value))
+	panic(rt.panicTypeError("%v is not a function", v))
 }
 
 func (v Value) constructSafe(rt *runtime, this Value, argumentList ...interface{}) (Value, error) {
@@ -133,7 +133,7 @@ func (v Value) construct(rt *runtime, this Value, argumentList ...interface{}) V
 	if fn, ok := v.value.(*object); ok {
 		return fn.construct(fn.runtime.toValueArray(argumentList...))
 	}
-	panic(rt.panicTypeError("construct %q is not an object", v.value))
+	panic(rt.panicTypeError("%v is not a constructor", v))
 }
 
 // IsPrimitive will return true if value is a primitive (any kind of primitive).
